@@ -515,13 +515,9 @@ impl IoLoop {
     ) -> Result<()> {
         match event.token() {
             STREAM => {
-                if event.readiness().is_writable() {
-                    let result = self.inner.write_to_stream(stream);
-                    if self.socket_failed_behind_server_close(state, &result) {
-                        return Ok(());
-                    }
-                    result?;
-                }
+                // What has arrived is looked at before we try to write: if the broker has
+                // sent its Connection.Close and hung up, a write attempted first fails
+                // (reset) and would end everything with the Close still unread.
                 if event.readiness().is_readable() {
                     let result = self.inner.read_from_stream(
                         stream,
@@ -534,6 +530,13 @@ impl IoLoop {
                     if let ConnectionState::ClientClosed = state {
                         return Ok(());
                     }
+                    if self.socket_failed_behind_server_close(state, &result) {
+                        return Ok(());
+                    }
+                    result?;
+                }
+                if event.readiness().is_writable() {
+                    let result = self.inner.write_to_stream(stream);
                     if self.socket_failed_behind_server_close(state, &result) {
                         return Ok(());
                     }
